@@ -536,6 +536,19 @@ func (p *PX) term(v ssa.Value, fr *pxFrame, st *pxState) *Term {
 				}
 			}
 		}
+		// a pure getter called through a method value known on this path (`locate :=
+		// target.Pointer; … locate()`): the same pure term as `target.Pointer()`, the
+		// receiver being the value bound when the method value was made (pxfuncs.go)
+		var boundRecv *Term
+		if name == "" && !c.IsInvoke() {
+			if _, isB := c.Value.(*ssa.Builtin); !isB {
+				if fn, _, recv := p.funcValueCallee(x, fr, st); fn != nil && recv != nil {
+					if n := qualifiedFnName(fn); pureMethods[n] || p.extraPure[n] {
+						name, boundRecv = n, recv
+					}
+				}
+			}
+		}
 		if pureMethods[name] || p.extraPure[name] {
 			var args []*Term
 			var keys []string
@@ -543,6 +556,10 @@ func (p *PX) term(v ssa.Value, fr *pxFrame, st *pxState) *Term {
 				a := p.term(c.Value, fr, st)
 				args = append(args, a)
 				keys = append(keys, a.key)
+			}
+			if boundRecv != nil {
+				args = append(args, boundRecv)
+				keys = append(keys, boundRecv.key)
 			}
 			for _, a := range c.Args {
 				ta := p.term(a, fr, st)
